@@ -3,6 +3,7 @@ package main
 import (
 	"encoding/json"
 	"fmt"
+	"github.com/couchbase/gocbcore/v10"
 
 	dcp "github.com/Trendyol/go-dcp"
 	"github.com/Trendyol/go-dcp/stream"
@@ -39,6 +40,7 @@ func init() {
 			for i := 0; i < parts; i++ {
 				out = append(out, Instance{Scenario: "c18_gates", Params: mustJSON(GateParams{Tier: tier, Part: i, Of: parts}), Bound: 0})
 			}
+			out = append(out, Instance{Scenario: "c18_connectfault", Params: mustJSON(struct{}{}), Bound: 0, Shards: 2, Note: "the first DCP connect fails: no session with features other than those the version gates"})
 			return out
 		},
 	})
@@ -102,3 +104,52 @@ func gatesMain(p GateParams) {
 }
 
 func hashShort(s string) string { return vrtHash(s) }
+
+// c18_connectfault: the first attempt to open the DCP connection fails (transient). Either the construction
+// fails, or the session that comes up was opened with exactly the features the server version gates -
+// the features in effect never depend on anything but the version (and the bucket kind).
+func init() {
+	scenarios["c18_connectfault"] = func(raw json.RawMessage) *vrt.Scenario {
+		return &vrt.Scenario{Name: "c18_connectfault", FreeChoices: true, MaxSteps: 2_000_000, Main: func() {
+			vs := [][4]int{{5, 0, 0, 0}, {6, 4, 9, 0}, {6, 5, 0, 0}, {7, 1, 9, 0}, {7, 2, 0, 0}, {7, 6, 0, 0}}
+			t := vs[vrt.Choose(len(vs), true, "version")]
+			k := [][2]string{{"membase", "couchstore"}, {"membase", "magma"}}[vrt.Choose(2, true, "bucket")]
+			fault := vrt.Choose(3, true, "first-connect") // 0 fine, 1 error, 2 never answered
+			resetGlobals()
+			o := DcpOpts{ServerVersion: versionString(t), BucketType: k[0], Storage: k[1]}
+			o.Vbs = 2
+			o.CheckpointType = "manual"
+			c := NewCluster(&o.EnvOpts)
+			armed := fault != 0
+			c.Fault = func(r *gocbcore.SimRequest) gocbcore.SimAnswer {
+				if armed && r.Kind == "waitready" && r.Agent == "dcp" {
+					armed = false
+					if fault == 1 {
+						return gocbcore.SimAnswer{Kind: "err", Err: gocbcore.ErrTemporaryFailure}
+					}
+					return gocbcore.SimAnswer{Kind: "drop"}
+				}
+				return gocbcore.SimAnswer{}
+			}
+			e := NewDcpEnv(c, o)
+			desc := fmt.Sprintf("version %v bucket %v, first DCP connect: %s", t, k, []string{"fine", "rejected", "never answered"}[fault])
+			vrt.SetOutcome(desc)
+			if e.Err != nil {
+				if fault == 0 {
+					vrt.Failf("%s: newDcp failed: %v", desc, e.Err)
+				}
+				return
+			}
+			if len(c.DcpConfigs) == 0 {
+				vrt.Failf("%s: no DCP connection was configured", desc)
+				return
+			}
+			dc := c.DcpConfigs[len(c.DcpConfigs)-1]
+			wantExp := geq(t, [4]int{6, 5, 0, 0})
+			wantCS := k[1] == "magma" && geq(t, [4]int{7, 2, 0, 0})
+			if dc.UseExpiryOpcode != wantExp || dc.UseChangeStreams != wantCS {
+				vrt.Failf("%s: the session runs with expiry opcode=%v change streams=%v, the server version gates %v / %v", desc, dc.UseExpiryOpcode, dc.UseChangeStreams, wantExp, wantCS)
+			}
+		}}
+	}
+}
